@@ -427,7 +427,7 @@ func init() {
 					if !contains(c.versions, wv) {
 						wantTag = fmt.Sprintf("legacy-%d", wv)
 					}
-					if tp, _ := cfg.Plugins["p"].(*tagPlugin); tp == nil || tp.tag != wantTag {
+					if tp, _ := pluginSetInUse(cl, cfg)["p"].(*tagPlugin); tp == nil || tp.tag != wantTag {
 						x.Fail("S", "plugin set in use is not the one registered under version %d [%s]", wv, desc)
 					}
 				}
